@@ -93,6 +93,23 @@ CORPUS = [  # hand-written trees for shapes the generator reaches rarely; each i
 ]
 
 
+def frag_tree(r, d=0):
+    """trees of the fragment of compile_correct: numbers, binary / unary operators, ternary, || and &&"""
+    k = r.random()
+    if d >= 4 or k < 0.25:
+        return ("i", r.choice([0, 1, 2, 3, 7, 10, 100]))
+    if k < 0.6:
+        op = r.choice(["add", "sub", "mul", "div", "mod", "pow", "nullCoalescing", "comp.lt", "comp.le", "comp.eq", "comp.ne", "comp.ge", "comp.gt", "&", "|"])
+        return ("bin", op, frag_tree(r, d + 1), frag_tree(r, d + 1))
+    if k < 0.68:
+        return ("neg", frag_tree(r, d + 1))
+    if k < 0.8:
+        return ("tern", frag_tree(r, d + 1), frag_tree(r, d + 1), frag_tree(r, d + 1))
+    if k < 0.9:
+        return ("or", frag_tree(r, d + 1), frag_tree(r, d + 1))
+    return ("and", frag_tree(r, d + 1), frag_tree(r, d + 1))
+
+
 def main(tier):
     run = Run("C02", tier, module="DS.Props.C02", props_file="DS/Props/C02.lean",
               extra_files=["DS/Model/RefEval.lean", "DS/Model/VMRun.lean", "DS/Model/Ops.lean"])
@@ -155,6 +172,28 @@ def main(tier):
                 st["agree"] += 1
                 run.nontriv(("ref", tuple(texts), cfg))
         run.sample({"stream": "ref", "sources": srcs[len(CORPUS)], "reference_line": lean_lines[len(CORPUS)][:300]})
+        # ---------- compile stream: the compiler of the theorem vs the real compiler, instruction by instruction
+        trees = [frag_tree(r) for _ in range(3000 if tier == "thorough" else 700)]
+        texts, sx_lines = [], []
+        for t in trees:
+            pr = Printer(r, spacing=True, redundant=r.choice([0.0, 0.1, 0.3]))
+            texts.append(pr.raw(t))
+            sx_lines.append("fragc " + Sexp().e(t))
+        gd = go_child().run([f"vmdump - {hx(t)}" for t in texts])
+        md = lean_child().run(sx_lines)
+        cs = run.streams.setdefault("compile", {"cases": 0, "agree": 0})
+        for t, txt, a, b in zip(trees, texts, gd, md):
+            cs["cases"] += 1
+            run.evaluations += 1
+            dump = a.split(" ", 1)[1] if " " in a else a
+            off = a.split(" ", 1)[0]
+            if dump == b and off == str(len(txt.encode())):
+                cs["agree"] += 1
+                run.nontriv(("compile", txt))
+            else:
+                run.violation("correspondence:compile", {"stream": "compile", "source": txt, "implementation": a[:500], "model": b[:500]})
+        if texts:
+            run.sample({"stream": "compile", "source": texts[0], "code": md[0][:200]})
     return run.finish(
         trusted=["Lean 4.33 kernel", "axioms: propext, Classical.choice, Quot.sound", "Go harness + Lean driver + the Python printer (the statement of the grammar's precedence levels)",
                  "primitive operator tables / indexing / scopes are shared between the definitional semantics and the VM model (they are C01's and the vm stream's subject); "
